@@ -3,7 +3,9 @@
 R  the reference decoder reads ppci's bytes as a different operation, a different operand
    value, a different length, or as invalid.
 O  vlib.refdis: llvm-objdump-14 for arm, thumb, riscv, riscv:rvc, x86_64, mips, msp430, avr,
-   m68k (GNU objdump as a second opinion on x86_64, agreement is counted only).
+   m68k.  GNU objdump (x86-64 only here) is NOT used as second decoder: its Intel syntax prints the
+   redundant REX prefixes ppci always emits as separate `rex`/`rex.W` pseudo-prefixes and would need
+   a second normaliser; refdis.run_gnu_x86 exists for whoever wants to add it.
 W  vlib.isaenum over those ISAs.  Registers / constructor alternatives / labels come from the
    enumerator's slot cyclers.  Integer operands are drawn from the range in which "printed ==
    decoded" can be demanded: vlib.oprange probes, through ppci's encoder and the reference
